@@ -103,6 +103,9 @@ inductive Matcher where
   | errRange (lo hi : Nat)       -- real `expression` matcher, what `handle_errors 4xx` adapts to:
                                  -- "{http.error.status_code} >= lo && {http.error.status_code} <= hi"
   | errIn (codes : List Nat)     -- "{http.error.status_code} in [c, …]"  (`handle_errors 404 500`)
+  | errSel (ranges : List (Nat × Nat)) (codes : List Int)
+                                 -- the general form `parseHandleErrors` builds: the range tests joined
+                                 -- by `||`, then `|| … in [codes]` (see Adapt.lean)
   | not (sets : List (List Matcher))
 
 /-- `(bool, error)` of the `MatchWithError` family -/
@@ -125,6 +128,10 @@ def evalMatcher : Matcher → Req → MRes
     match r.replStatus with
     | some c => .ok (codes.contains c)
     | none => .ok false
+  | .errSel ranges codes, r =>
+    match r.replStatus with
+    | some c => .ok (ranges.any (fun p => decide (p.1 ≤ c) && decide (c ≤ p.2)) || codes.contains (c : Int))
+    | none => if ranges.isEmpty then .ok false else .err 0   -- CEL: `error || false` is the error
   | .not sets, r => evalNot sets r
 /-- `MatchNot.MatchWithError`: an error aborts, a matching set makes the result false -/
 def evalNot : List (List Matcher) → Req → MRes
